@@ -426,4 +426,4 @@ THOROUGH_BOUNDED = [OrderedDictProbe()]
 
 # tables the statement pins down by value (props/constants_common.py)
 from props.constants_common import ClosedConstants   # noqa: E402
-UNITS = list(UNITS) + [ClosedConstants('sm-chart-fields')]
+UNITS = list(UNITS) + [ClosedConstants('sm-chart-fields', 'alias-declarations')]
